@@ -152,6 +152,73 @@ fn gen(r: &mut Rng, tier: &Tier, out: &mut Vec<String>) {
         let mut s = hb.clone(); s.horder = req.clone(); let mut o = hb.clone(); o.horder = unexp.clone(); push_h(out, "H", &s, &o);
         let mut s = hb.clone(); s.habsent = req.clone(); s.horder = unexp.clone(); let mut o = hb.clone(); o.habsent = unexp.clone(); push_h(out, "R", &s, &o);
     }}
+    // long header lists: signatures with 12..20 optional headers between a few required ones; instances with none, one, two,
+    // a random subset and all of the optional ones present; the same with one required header missing / one unexpected header;
+    // in horder and in habsent, request and response copies
+    {
+        const ONAMES: [&str; 20] = ["Cookie", "Referer", "Origin", "Range", "If-Modified-Since", "If-None-Match", "Via", "X-Forwarded-For",
+            "Authorization", "Proxy-Authorization", "Cache-Control", "Accept-Language", "DNT", "Pragma", "TE", "Upgrade", "Expect", "From", "Warning", "X-a"];
+        let hd = |n: &str, v: Option<&str>, opt: bool| Header { optional: opt, name: n.to_string(), value: v.map(|x| x.to_string()) };
+        let nopts: Vec<usize> = if tier.thorough { (12..=20).collect() } else { vec![12, 13, 16, 20] };
+        for &nopt in &nopts { for variant in 0..tier.scale(2, 6) {
+            // required: Host first, Connection last, sometimes one in the middle
+            let mid = variant % 2 == 1;
+            let mut sig: Vec<Header> = vec![hd("Host", None, false)];
+            for (i, n) in ONAMES.iter().take(nopt).enumerate() {
+                if mid && i == nopt / 2 { sig.push(hd("User-Agent", None, false)); }
+                sig.push(hd(n, if (i + variant) % 3 == 0 { Some("1") } else { None }, true));
+            }
+            sig.push(hd("Connection", Some("keep-alive"), false));
+            let opt_idx: Vec<usize> = (0..sig.len()).filter(|&i| sig[i].optional).collect();
+            let mut keeps: Vec<Vec<usize>> = vec![vec![], opt_idx.clone()];
+            for _ in 0..2 { keeps.push(vec![*r.pick(&opt_idx)]); }
+            keeps.push(vec![opt_idx[0]]); keeps.push(vec![opt_idx[nopt - 1]]);
+            for _ in 0..2 { let a = *r.pick(&opt_idx); let b = *r.pick(&opt_idx); keeps.push(vec![a.min(b), a.max(b)]); }
+            keeps.push(opt_idx.iter().cloned().filter(|_| r.chance(1, 3)).collect());
+            keeps.push(opt_idx.iter().cloned().filter(|_| r.chance(5, 6)).collect());
+            for keep in &keeps {
+                let obs: Vec<Header> = sig.iter().enumerate().filter(|(i, h)| !h.optional || keep.contains(i))
+                    .map(|(_, h)| Header { optional: false, name: h.name.clone(), value: h.value.clone() }).collect();
+                for (k, in_absent) in [("H", false), ("R", false), ("H", true), ("R", true)] {
+                    if !tier.thorough && in_absent && keep.len() > 2 { continue; }
+                    let mut s = hb.clone(); let mut o = hb.clone();
+                    if in_absent { s.habsent = sig.clone(); o.habsent = obs.clone(); } else { s.horder = sig.clone(); o.horder = obs.clone(); }
+                    push_h(out, k, &s, &o);
+                    if k == "H" && !in_absent {
+                        // one required header missing; one unexpected header; one optional header with another value
+                        let mut o1 = o.clone(); o1.horder.pop(); push_h(out, k, &s, &o1);
+                        let mut o2 = o.clone(); o2.horder.insert(1, hd("X-unexpected", None, false)); push_h(out, k, &s, &o2);
+                        if let Some(&i) = keep.first() { let mut o3 = o.clone(); let nm = sig[i].name.clone(); for h in o3.horder.iter_mut() { if h.name == nm { h.value = Some("other".into()); } } push_h(out, k, &s, &o3); }
+                    }
+                }
+            }
+        }}
+        // length difference 9..14 in both directions, by kind of surplus: optional signature headers (free), required signature
+        // headers (one error each), unexpected observed headers (one error each), and mixtures around the tolerance of 11 errors
+        for d in 9..=14usize { for (k, in_absent) in [("H", false), ("R", true)] {
+            let base = vec![hd("Host", None, false), hd("Connection", Some("close"), false)];
+            let put = |sl: Vec<Header>, ol: Vec<Header>, out: &mut Vec<String>| {
+                let mut s = hb.clone(); let mut o = hb.clone();
+                if in_absent { s.habsent = sl; o.habsent = ol; } else { s.horder = sl; o.horder = ol; }
+                push_h(out, k, &s, &o);
+            };
+            let surplus = |n: usize, opt: bool, tag: &str| -> Vec<Header> { (0..n).map(|i| hd(&format!("{}{}", tag, i), None, opt)).collect() };
+            // signature longer by d: all optional / all required / d-1 optional + 1 required / 11 required + rest optional
+            for (nreq, nopt) in [(0, d), (d, 0), (1, d - 1), (d.min(11), d - d.min(11)), (d.min(12), d - d.min(12))] {
+                let mut sl = vec![base[0].clone()]; sl.extend(surplus(nopt, true, "O")); sl.extend(surplus(nreq, false, "S")); sl.push(base[1].clone());
+                put(sl.clone(), base.clone(), out);
+                // ... and against an empty observation (difference d + 2)
+                put(sl, vec![], out);
+            }
+            // observation longer by d: unexpected headers at the end / in the middle; with optional signature headers absent as well
+            let mut ol = base.clone(); ol.extend(surplus(d, false, "U")); put(base.clone(), ol, out);
+            let mut ol = vec![base[0].clone()]; ol.extend(surplus(d, false, "U")); ol.push(base[1].clone()); put(base.clone(), ol.clone(), out);
+            let mut sl = vec![base[0].clone()]; sl.extend(surplus(3, true, "O")); sl.push(base[1].clone()); put(sl, ol, out);
+            put(vec![], surplus(d, false, "U"), out);
+            // equal lengths, d mismatching required names (2d errors)
+            put(surplus(d, false, "S"), surplus(d, false, "U"), out);
+        }}
+    }
     // software strings: all pairs over {a,b}^<=3 plus the realistic table
     let mut strs: Vec<String> = vec![String::new()];
     let mut last = vec![String::new()];
